@@ -260,7 +260,17 @@ pub fn gen_string(d: &mut Dec) -> String {
             // strict RFC 3339 (years outside 0..=9999 are not expressible in RFC 3339)
             let secs = dt.timestamp().clamp(-30_610_224_000, 253_402_300_799);
             let dt = DateTime::<Utc>::from_timestamp(secs, dt.timestamp_subsec_nanos()).unwrap();
-            dt.to_rfc3339_opts(SecondsFormat::AutoSi, d.bool())
+            let text = dt.to_rfc3339_opts(SecondsFormat::AutoSi, d.bool());
+            // sometimes one of the relaxed spellings chrono's reader documents
+            match d.below(10) {
+                0 => text.replace('T', " "),
+                1 => text.replace('T', "t").replace('Z', "z"),
+                2 => format!(" {text} "),
+                3 => text.replace("+00:00", "+0000").replace('Z', " +0000"),
+                4 => text.replace('Z', " UTC"),
+                5 => text.replace('T', "  "),
+                _ => text,
+            }
         }
         _ => {
             let n = d.below(7);
